@@ -581,6 +581,14 @@ func (s *service) handleSubscribe(ctx context.Context, peerId string, sub *pubsu
 			s.pruneStream(streamId, strm)
 			s.pruneSpace(sub.SpaceId, si)
 		}
+	} else {
+		// nothing was registered (empty list, only known patterns, cap hit at once):
+		// do not leave the entries created above behind if they are still empty
+		if len(spacePatterns) == 0 {
+			delete(strm.bySpace, sub.SpaceId)
+		}
+		s.pruneStream(streamId, strm)
+		s.pruneSpace(sub.SpaceId, si)
 	}
 	s.remoteMu.Unlock()
 
